@@ -259,6 +259,23 @@ class Gen:
                 fields.append((it, [self.struct(it['kind'][1], v, depth + 1, None, nonempty=True) for _ in range(n)]))
                 continue
             fields.append((it, [self.value(tuple(it['kind']), v, depth) for _ in range(n)]))
+        # post-conditions of the class (at least one of / required if): nested, randomly populated values are repaired so that
+        # they stay encodable; the explicit occurrence vectors of the top level are left alone (they exercise the refusals)
+        if counts is None:
+            for q in self.s.classes[cname].get('post_wr', []):
+                if not (q['lo'] <= v < q['hi']):
+                    continue
+                c = q['check']
+                need = None
+                if c[0] == 'AtLeastOneOf' and not any(fields[i][1] for i in c[1] if i < len(fields)):
+                    need = c[1][0]
+                elif c[0] == 'RequiredIf' and c[1] < len(fields) and not fields[c[1]][1]:
+                    kv = fields[c[2]][1] if c[2] < len(fields) else []
+                    if len(kv) == 1 and kv[0][0] == 'E' and '(VEnum %d)' % kv[0][2] == c[3]:
+                        need = c[1]
+                if need is not None and need < len(fields) and not fields[need][0].get('by'):
+                    it = fields[need][0]
+                    fields[need] = (it, [self.value(tuple(it['kind']), v, depth)])
         # a counted item: the Integer item of the header structure that holds the count says how many there are
         for i, it in enumerate(items):
             cn = it.get('counted')
